@@ -50,6 +50,9 @@ CLAIMED = {
  'C09': ('property-based testing: hostile file names x argument templates with 0-3 {} per argument x scripted child statuses x action position; recorder command log vs template substitution model, in process and through the binary',
          'Exploration: tens of thousands of generated cases; every recorded argv equals the template with each {} replaced by the path (./basename and parent cwd for -execdir) byte for byte, one run per reached file in evaluation order (two chained actions interleave per file), truth == (status 0) seen through labelled -printf, find exits 0 whatever the children do.',
          'Trusts the rec recorder and the reference walker; starting points spelled c/r or ./c/r.', 'DESIGN.md §3 C09'),
+ 'C18': ('property-based testing: generated lists of starting points (every spelling of one directory, files, links, missing names, duplicates) given as operands or through -files0-from (file / stdin) vs per-root reference walks; metamorphic operands == files0',
+         'Exploration: tens of thousands of lists of 0-5 starting points; stdout equals the in-order concatenation of the reference walk of each starting point with its spelling preserved; unexaminable starting points are diagnosed with non-zero exit while the others are still processed; -files0-from lists (names starting with -, containing newlines, empty names, with/without final NUL) equal the operand form whenever expressible.',
+         'Trusts the reference walker; -sorted is given; an empty files0 list is not compared with no operands.', 'DESIGN.md §3 C18'),
 }
 hooks_commits = subprocess.run(['git','-C','/repo','log','--format=%H %s'],capture_output=True,text=True).stdout.splitlines()
 hook_shas = [l.split()[0] for l in hooks_commits if 'verif hooks' in l]
